@@ -2941,6 +2941,47 @@ pub fn suite_value_products(out: &mut Out, tier: &str, rng: &mut Rng) {
             out.emit(json!({"op": "chain", "in": bytes_json(&enc_control(&m)), "opts": [true, true, true]}));
         }
     }
+    // one numeric field at a time through its WHOLE range (65 536 or 256 values): header fields of control and data
+    // messages (the caller-supplied control Length included: it must be ignored), every 16-bit and 8-bit AVP field
+    {
+        let cm = json!({"k": "Control", "length": 0, "tunnel_id": 7, "session_id": 8, "ns": 9, "nr": 10,
+                        "avps": [gen_message_type(rng), gen_avp_kind(rng, 7, 5), gen_avp_kind(rng, 9, 5)]});
+        for f in ["length", "tunnel_id", "session_id", "ns", "nr"] {
+            out.emit(json!({"op": "rt_sweep", "kind": "msg", "v": cm, "path": format!("/{f}"), "lo": 0, "hi": 65535}));
+        }
+        for shape in 0..2usize {
+            let data = rng.rbytes(3, 12);
+            let total = 2 + if shape == 1 { 2 } else { 0 } + 4 + 4 + data.len();
+            let dm = json!({"k": "Data", "prio": shape == 1, "length": if shape == 1 { json!([total]) } else { json!([]) }, "tunnel_id": 7, "session_id": 8,
+                            "ns_nr": [[9, 10]], "offset": [], "data": bytes_json(&data)});
+            for p in ["/tunnel_id", "/session_id", "/ns_nr/0/0", "/ns_nr/0/1"] {
+                out.emit(json!({"op": "rt_sweep", "kind": "msg", "v": dm, "path": p, "lo": 0, "hi": 65535}));
+            }
+        }
+        for (ki, (_, _, prog)) in KINDS.iter().enumerate() {
+            let mut fi = 0usize;
+            for o in prog.iter() {
+                let hi = match o { Op::U16 => Some(65535u32), Op::U8 => Some(255), _ => None };
+                if let Some(hi) = hi {
+                    for variant in 0..2 {
+                        let mut a = gen_avp_kind(rng, ki, 6);
+                        if KINDS[ki].1 == "ResultCode" && variant == 1 {
+                            a["f"][1] = json!([]);
+                            a["f"][2] = json!([]);
+                        } else if variant == 1 {
+                            continue;
+                        }
+                        out.emit(json!({"op": "rt_sweep", "kind": "avp", "v": a, "path": format!("/f/{fi}"), "lo": 0, "hi": hi}));
+                    }
+                }
+                match o {
+                    Op::Skip(_) => {}
+                    Op::OptErr => fi += 2,
+                    _ => fi += 1,
+                }
+            }
+        }
+    }
     // Call Errors / ACCM with equal, zero and all-ones counters
     for pat in 0..8usize {
         let w = |i: usize| -> Vec<u8> { match (pat + i) % 4 { 0 => vec![0; 4], 1 => vec![0xff; 4], 2 => vec![0, 0, 0, 1], _ => vec![1, 2, 3, 4] } };
